@@ -1933,6 +1933,8 @@ func headStr(s string, n int) string {
 
 func replay(d *ev.ReplayDoc) {
 	switch d.Detail["part"] {
+	case "criteria-json":
+		partCriteriaJSON(run) // the whole part is re-run: it reports the same case again if it still fails
 	case "receipt":
 		alpha := logAlphabet(4)
 		var logs []mlog
@@ -2076,6 +2078,7 @@ func TestCheck(t *testing.T) {
 		replay(d)
 		run.Finish()
 	}
+	partCriteriaJSON(run)
 	t1 := time.Now()
 	part1()
 	run.Set("part1_wall_s", time.Since(t1).Seconds())
